@@ -12,7 +12,9 @@
 // bitwise unchanged in the Assembler's internal state and locked mobilizer POSES unchanged in the user's state;
 // (A3) prescribed coordinates equal their prescribed value; (A4) restricted coordinates inside their box;
 // (A5) only q changed; (A6) returned goal = calcCurrentGoal = my recomputation from body poses; (A7) goal not
-// worse than at a feasible start; (A8) exact data + near start: residuals ~ 0 to accuracy-scaled bounds.
+// worse than at a feasible start; (A8) exact data + near start: residuals ~ 0 to accuracy-scaled bounds; (G1) the analytic goal
+// gradients of Markers / OrientationSensors w.r.t. the free q's = central differences of the documented goal; (T1) differential twin
+// with the other gradient route reaches a comparable goal.
 #include "pbt.h"
 #include "mbgen.h"
 #include "consgen.h"
@@ -55,7 +57,7 @@ Extra decodeExtra(const pbt::Seg& seg) {
     }
     for (int k = 0; k < 3; ++k) { uint32_t w = r.w(); e.mw[k] = (w & 3u) == 0 ? 1.0 : (w & 3u) == 1 && ((w >> 2) & 3u) == 0 ? 0.0 : std::exp(std::log(0.2) + (std::log(5.0) - std::log(0.2)) * ((w >> 4) / 268435456.0)); e.obsMissing[k] = w != 0 && (w >> 2) % 11u == 5u; }
     { double a[3]; for (int k = 0; k < 3; ++k) { r.unit3(a); e.noiseDir[k] = Vec3(a[0], a[1], a[2]); } }
-    { uint32_t w = r.w(); e.sensor = (w % 3u) == 1; e.sw = ((w >> 2) & 1u) ? 1.0 : 0.3 + 3.0 * ((w >> 8) / 16777216.0); }
+    { uint32_t w = r.w(); e.sensor = (w % 2u) == 1; e.sw = ((w >> 2) & 1u) ? 1.0 : 0.3 + 3.0 * ((w >> 8) / 16777216.0); }
     e.sR = mbgen::readRotation(r); e.sNoise = mbgen::readVec3(r, -1, 1);
     { uint32_t w = r.w(); int c = int(w % 8u); e.lock = c == 1 ? 1 : c == 2 ? 2 : c == 3 ? 3 : 0; e.lockQ = int((w >> 3) % 7u); e.lockAtRef = ((w >> 6) & 3u) != 3u; }
     { uint32_t w = r.w(); int c = int(w % 6u); e.restrict = c == 1 || c == 2 ? 1 : c == 3 ? 2 : 0; e.rQ = int((w >> 3) % 7u); e.rA = 0.1 + 0.9 * r.unit(); e.rB = 0.1 + 0.9 * r.unit(); }
@@ -173,6 +175,7 @@ void runAssembler(const pbt::Tape& t, pbt::Reader& g, pbt::Ctx& ctx) {
     const bool numGrad = g.chance(1, 8), numJac = g.chance(1, 8);
     const double wM = g.chance(1, 4) ? 0.3 + 3 * g.unit() : 1.0, wO = g.chance(1, 4) ? 0.3 + 3 * g.unit() : 1.0;
     const bool permuteObs = g.chance(1, 4), viaStateOverload = g.chance(1, 3);
+    const bool twin = !g.chance(1, 3);     // differential twin with the other gradient route (2/3 of the cases; word 0 -> twin)
     const double accUse = setAcc ? acc : 1e-3, tolUse = setTol ? accUse * tolFactor : accUse / 10;
 
     if (ctx.wantDesc) { c.cm.describe(ctx.desc); ctx.desc << "solver=Assembler accuracy=" << (setAcc ? acc : 0.0) << " (in use " << accUse << ") tolerance=" << (setTol ? tolUse : 0.0) << " (in use " << tolUse << ") rms=" << rms
@@ -229,34 +232,40 @@ void runAssembler(const pbt::Tape& t, pbt::Reader& g, pbt::Ctx& ctx) {
         for (auto& r : qvals) if (!r.isError) { double d = m.mb[r.body].getOneQ(s, r.q) - r.value; goal += r.w * d * d / 2; }
         return goal; };
 
-    // ---- the Assembler
-    Assembler ik(m.sys);
-    if (setAcc) ik.setAccuracy(acc); if (setTol) ik.setErrorTolerance(tolUse); ik.setUseRMSErrorNorm(rms);
-    ik.setForceNumericalGradient(numGrad); ik.setForceNumericalJacobian(numJac);
-    Markers* mk = nullptr; OrientationSensors* os = nullptr;
+    // per-condition goals (documented formulas) on any state of this system -- used for the gradient clause G1
+    auto goalMarkers = [&](const State& s) { double gM = 0, wt = 0; for (auto& r : markers) if (!r.missing && r.w > 0) { gM += r.w * (m.mb[r.body].findStationLocationInGround(s, r.station) - r.obs).normSqr(); wt += r.w; } return wt > 0 ? gM / (2 * wt) : 0.0; };
+    auto goalSensors = [&](const State& s, double& worst) { double gS = 0, ws = 0; worst = 0; for (auto& r : sensors) { double a = rotAngle(m.mb[r.body].getBodyRotation(s) * r.R_BS, r.obs); gS += r.w * a * a; ws += r.w; worst = std::max(worst, a); } return ws > 0 ? gS / (2 * ws) : 0.0; };
+    // ---- the Assembler (configure() is used a second time for the differential twin)
     bool haveActiveMarker = false; for (auto& r : markers) if (!r.missing && r.w > 0) haveActiveMarker = true;
-    if (!markers.empty() && haveActiveMarker) { mk = new Markers(); for (auto& r : markers) mk->addMarker(m.mb[r.body].getMobilizedBodyIndex(), r.station, r.w); ik.adoptAssemblyGoal(mk, wM); }
-    else markers.clear();
-    if (!sensors.empty()) { os = new OrientationSensors(); for (auto& r : sensors) os->addOSensor(m.mb[r.body].getMobilizedBodyIndex(), r.R_BS, r.w); ik.adoptAssemblyGoal(os, wO); }
-    for (auto& r : qvals) { QValue* qv = new QValue(m.mb[r.body].getMobilizedBodyIndex(), MobilizerQIndex(r.q), r.value); if (r.isError) ik.adoptAssemblyError(qv); else ik.adoptAssemblyGoal(qv, r.w); }
+    if (!haveActiveMarker) markers.clear();
     const int nM = (int)markers.size();
-    std::vector<int> obsOfMarker(nM); for (int i = 0; i < nM; ++i) obsOfMarker[i] = i;
-    if (mk && permuteObs) { Array_<Markers::MarkerIx> order; for (int i = nM - 1; i >= 0; --i) order.push_back(Markers::MarkerIx(i)); order.push_back(Markers::MarkerIx()); mk->defineObservationOrder(order); for (int i = 0; i < nM; ++i) obsOfMarker[i] = nM - 1 - i; }
+    std::vector<int> obsOfMarker(nM); for (int i = 0; i < nM; ++i) obsOfMarker[i] = permuteObs ? nM - 1 - i : i;
     struct LockedQ { int body; int q; }; std::vector<LockedQ> lockedQs; struct Box { int body; int q; double lo, hi; }; std::vector<Box> boxes;
     State eref; m.matter.convertToEulerAngles(sref, eref); m.sys.realizeModel(eref);
-    for (int i = 0; i < nb; ++i) {
-        const Extra& e = c.ex[i]; const MobilizedBody& mb = m.mb[i + 1]; const int nqE = mb.getNumQ(eref);
-        if (e.lock == 1) { ik.lockMobilizer(mb.getMobilizedBodyIndex()); anyLock = true; for (int k = 0; k < nqE; ++k) lockedQs.push_back({i + 1, k}); }
-        else if (e.lock == 2 && nqE > 0) { int k = e.lockQ % nqE; ik.lockQ(mb.getMobilizedBodyIndex(), MobilizerQIndex(k)); anyLock = true; lockedQs.push_back({i + 1, k}); }
-        else if (e.lock == 3) { anyLock = true; for (int k = 0; k < nqE; ++k) lockedQs.push_back({i + 1, k}); }
-        if (e.restrict && nqE > 0 && !e.motion) { int k = e.rQ % nqE; double qr = mb.getOneQ(eref, k); Box bx; bx.body = i + 1; bx.q = k;
-            if (e.restrict == 1) { bx.lo = qr - e.rA; bx.hi = qr + e.rB; } else { bx.lo = qr + 0.1 + 0.3 * e.rA; bx.hi = bx.lo + e.rB; }
-            if (e.rA > 0.9) bx.lo = -Infinity; else if (e.rB > 0.9 && e.restrict == 1) bx.hi = Infinity;
-            ik.restrictQ(mb.getMobilizedBodyIndex(), MobilizerQIndex(k), bx.lo, bx.hi); boxes.push_back(bx); anyBound = true; }
-    }
-    auto setObservations = [&](const std::vector<MarkerRef>& ms, const std::vector<SensorRef>& ss) {
-        if (mk) for (int i = 0; i < nM; ++i) mk->moveOneObservation(Markers::ObservationIx(obsOfMarker[i]), ms[i].missing ? Vec3(NaN) : ms[i].obs);
-        if (os) for (size_t i = 0; i < ss.size(); ++i) os->moveOneObservation(OrientationSensors::ObservationIx((int)i), ss[i].obs); };
+    auto configure = [&](Assembler& A, Markers*& mkO, OrientationSensors*& osO, bool useNumGrad, bool record) {
+        if (setAcc) A.setAccuracy(acc); if (setTol) A.setErrorTolerance(tolUse); A.setUseRMSErrorNorm(rms);
+        A.setForceNumericalGradient(useNumGrad); A.setForceNumericalJacobian(numJac);
+        mkO = nullptr; osO = nullptr;
+        if (!markers.empty()) { mkO = new Markers(); for (auto& r : markers) mkO->addMarker(m.mb[r.body].getMobilizedBodyIndex(), r.station, r.w); A.adoptAssemblyGoal(mkO, wM); }
+        if (!sensors.empty()) { osO = new OrientationSensors(); for (auto& r : sensors) osO->addOSensor(m.mb[r.body].getMobilizedBodyIndex(), r.R_BS, r.w); A.adoptAssemblyGoal(osO, wO); }
+        for (auto& r : qvals) { QValue* qv = new QValue(m.mb[r.body].getMobilizedBodyIndex(), MobilizerQIndex(r.q), r.value); if (r.isError) A.adoptAssemblyError(qv); else A.adoptAssemblyGoal(qv, r.w); }
+        if (mkO && permuteObs) { Array_<Markers::MarkerIx> order; for (int i = nM - 1; i >= 0; --i) order.push_back(Markers::MarkerIx(i)); order.push_back(Markers::MarkerIx()); mkO->defineObservationOrder(order); }
+        for (int i = 0; i < nb; ++i) {
+            const Extra& e = c.ex[i]; const MobilizedBody& mb = m.mb[i + 1]; const int nqE = mb.getNumQ(eref);
+            if (e.lock == 1) { A.lockMobilizer(mb.getMobilizedBodyIndex()); if (record) { anyLock = true; for (int k = 0; k < nqE; ++k) lockedQs.push_back({i + 1, k}); } }
+            else if (e.lock == 2 && nqE > 0) { int k = e.lockQ % nqE; A.lockQ(mb.getMobilizedBodyIndex(), MobilizerQIndex(k)); if (record) { anyLock = true; lockedQs.push_back({i + 1, k}); } }
+            else if (e.lock == 3) { if (record) { anyLock = true; for (int k = 0; k < nqE; ++k) lockedQs.push_back({i + 1, k}); } }
+            if (e.restrict && nqE > 0 && !e.motion) { int k = e.rQ % nqE; double qr = mb.getOneQ(eref, k); Box bx; bx.body = i + 1; bx.q = k;
+                if (e.restrict == 1) { bx.lo = qr - e.rA; bx.hi = qr + e.rB; } else { bx.lo = qr + 0.1 + 0.3 * e.rA; bx.hi = bx.lo + e.rB; }
+                if (e.rA > 0.9) bx.lo = -Infinity; else if (e.rB > 0.9 && e.restrict == 1) bx.hi = Infinity;
+                A.restrictQ(mb.getMobilizedBodyIndex(), MobilizerQIndex(k), bx.lo, bx.hi); if (record) { boxes.push_back(bx); anyBound = true; } }
+        } };
+    Assembler ik(m.sys); Markers* mk = nullptr; OrientationSensors* os = nullptr;
+    configure(ik, mk, os, numGrad, true);
+    auto setObsOn = [&](Markers* mkP, OrientationSensors* osP, const std::vector<MarkerRef>& ms, const std::vector<SensorRef>& ss) {
+        if (mkP) for (int i = 0; i < nM; ++i) mkP->moveOneObservation(Markers::ObservationIx(obsOfMarker[i]), ms[i].missing ? Vec3(NaN) : ms[i].obs);
+        if (osP) for (size_t i = 0; i < ss.size(); ++i) osP->moveOneObservation(OrientationSensors::ObservationIx((int)i), ss[i].obs); };
+    auto setObservations = [&](const std::vector<MarkerRef>& ms, const std::vector<SensorRef>& ss) { setObsOn(mk, os, ms, ss); };
 
     // known finding: SimbodyMatterSubsystem::convertToEulerAngles (used by Assembler::setInternalState whenever the user's state
     // is in quaternion mode) re-realizes the Model stage, which resets the recorded lock POSITIONS to the default q while the
@@ -316,8 +325,15 @@ void runAssembler(const pbt::Tape& t, pbt::Reader& g, pbt::Ctx& ctx) {
         if (monotoneApplies && startFeasible) { if (!ctx.check(gret <= g0lib * (1 + 1e-12) + slack, std::string(what) + " from a feasible start made the goal worse: " + S(g0lib) + " -> " + S(gret))) return false; ctx.label(std::string("clause:monotone:") + what); }
         return true; };
 
-    State s1;
+    State s1; bool lockedBeforeFree = false;
     Vector qi0; double g0lib = 0, e0lib = 0, gret = 0; bool ok = false;
+    // T1: calibrated on 3 900 judgeable twins: (big-small)/big <= 1e-6 for LBFGS/LBFGSB (2 000 with a reduction), <= 0.0134 for IPOPT (210)
+    auto twinJudge = [&](double redA, double redB, double g2, bool ipoptW) {
+        const double big = std::max(redA, redB), small = std::min(redA, redB);
+        if (!(big > 1e-6 * g0lib + 1e-14)) { ctx.label("twin:nothing-to-reduce"); return; }
+        ctx.label(ipoptW ? "clause:twin:InteriorPoint" : "clause:twin:descent");
+        ctx.check(small >= 0.5 * big - (1e-3 * g0lib + 1e-14), std::string("same problem, same feasible start: assemble() with ") + (numGrad ? "the forced numerical gradient" : "the analytic goal gradient") + " took the goal from " + S(g0lib) + " to " + S(gret)
+            + " but with " + (numGrad ? "the analytic goal gradient" : "the forced numerical gradient") + " to " + S(g2) + " (less than half the reduction on one route: the analytic gradient and the goal disagree, or one search stalled)"); };
     std::string phase = "initialize";
     try {
         ik.initialize(s0);
@@ -326,6 +342,30 @@ void runAssembler(const pbt::Tape& t, pbt::Reader& g, pbt::Ctx& ctx) {
         // start goal/error cross-check (also validates my formulas before they are used as the oracle)
         { double a, b; m.sys.realize(s0, Stage::Position); double gm = myGoal(s0, a, b); ctx.check(std::fabs(gm - g0lib) <= 1e-9 * (gm + g0lib) + 1e-16, "start: calcCurrentGoal()=" + S(g0lib) + " but the documented weighted goal recomputed from body poses is " + S(gm));
           double em = errNorm(myErrors(s0), rms); ctx.check(std::fabs(em - e0lib) <= 1e-9 * (1 + em), "start: calcCurrentErrorNorm()=" + S(e0lib) + " but recomputed " + S(em)); if (ctx.failed) return; }
+        // which q's are free: a locked/prescribed q in front of a free one makes the free-q <-> q index maps non-trivial
+        { const State& si = ik.getInternalState(); int lastFree = -1, firstLocked = -1; for (int k = 0; k < si.getNQ(); ++k) { if (ik.getFreeQIndexOfQ(QIndex(k)).isValid()) lastFree = k; else if (firstLocked < 0) firstLocked = k; }
+          lockedBeforeFree = firstLocked >= 0 && firstLocked < lastFree; }
+        // G1 the analytic goal gradients the optimizer is given (public AssemblyCondition::calcGoalGradient, w.r.t. the free q's of the
+        // Euler-angle copy) agree with central differences of the documented goal formulas recomputed from body poses
+        if ((mk || os) && ik.getNumFreeQs() > 0 && !eulerNearSingular(c, m, s0)) {
+            phase = "harness";
+            const int np = ik.getNumFreeQs(); State e = ik.getInternalState(); const Vector q0 = e.getQ(); const double h = 1e-6;
+            m.sys.realize(e, Stage::Position); double worstA = 0; goalSensors(e, worstA);
+            for (int which = 0; which < 2; ++which) {
+                if (which == 0 ? !mk : (!os || worstA > 2.8)) continue;      // the rotation angle is not smooth at pi
+                Vector gl(np); gl = NaN; int st = which == 0 ? mk->calcGoalGradient(ik.getInternalState(), gl) : os->calcGoalGradient(ik.getInternalState(), gl);
+                if (st != 0) continue;
+                Vector gf(np); double dummy;
+                for (int fx = 0; fx < np; ++fx) { const int qx = ik.getQIndexOfFreeQ(Assembler::FreeQIndex(fx)); double f[2];
+                    for (int sg = 0; sg < 2; ++sg) { e.updQ() = q0; e.updQ()[qx] += (sg ? h : -h); m.sys.realize(e, Stage::Position); f[sg] = which == 0 ? goalMarkers(e) : goalSensors(e, dummy); }
+                    gf[fx] = (f[1] - f[0]) / (2 * h); }
+                double d = 0, sc = 0; for (int fx = 0; fx < np; ++fx) { d = std::max(d, std::fabs(gl[fx] - gf[fx])); sc = std::max(sc, std::max(std::fabs(gl[fx]), std::fabs(gf[fx]))); if (!std::isfinite(gl[fx])) d = Infinity; }
+                if (dbg()) fprintf(stderr, "C43DBG grad which=%d np=%d nq=%d d=%g sc=%g lbf=%d\n", which, np, e.getNQ(), d, sc, (int)lockedBeforeFree);
+                ctx.label(which == 0 ? "clause:gradient:markers" : "clause:gradient:orientation-sensors");
+                if (lockedBeforeFree) ctx.label(which == 0 ? "clause:gradient:markers:locked-before-free" : "clause:gradient:orientation-sensors:locked-before-free");
+                if (!ctx.check(d <= 1e-6 * sc + 1e-8, std::string(which == 0 ? "Markers" : "OrientationSensors") + "::calcGoalGradient (what the optimizer is given) differs from the central-difference gradient of the documented goal w.r.t. the free q's by " + S(d) + " (gradient scale " + S(sc) + ", " + std::to_string(np) + " free of " + std::to_string(e.getNQ()) + " q)" + (lockedBeforeFree ? "; a locked q precedes a free q" : ""))) return;
+            }
+        }
         phase = "assemble";
         s1 = s0;
         auto tA = std::chrono::steady_clock::now();
@@ -333,6 +373,7 @@ void runAssembler(const pbt::Tape& t, pbt::Reader& g, pbt::Ctx& ctx) {
         if (dbg()) fprintf(stderr, "C43DBG assemble took %.3f evals goal=%d grad=%d err=%d jac=%d\n", std::chrono::duration<double>(std::chrono::steady_clock::now() - tA).count(), ik.getNumGoalEvals(), ik.getNumGoalGradientEvals(), ik.getNumErrorEvals(), ik.getNumErrorJacobianEvals());
         ok = true;
     } catch (const std::exception& e) {
+        if (phase == "harness") throw;     // an exception in the oracle's own computations is never a rejection
         std::string w = e.what(); bool af = w.find("Assembler::assemble() failed") != std::string::npos;
         if (ctx.wantDesc) ctx.desc << "exception in " << phase << ": " << w.substr(0, 400) << "\n";
         if (dbg()) { std::string w1 = w; for (auto& ch : w1) if (ch == '\n') ch = ' '; fprintf(stderr, "C43DBG exc %s: %s\n", phase.c_str(), w1.substr(0, 300).c_str()); }
@@ -357,6 +398,23 @@ void runAssembler(const pbt::Tape& t, pbt::Reader& g, pbt::Ctx& ctx) {
     if (mp > 0) ctx.label("has:constraints"); if (numGrad) ctx.label("numerical-gradient"); if (numJac) ctx.label("numerical-jacobian"); if (rms) ctx.label("rms-norm"); if (permuteObs && mk) ctx.label("permuted-observations");
     ctx.label(mp > 0 || !qvals.empty() && std::any_of(qvals.begin(), qvals.end(), [](const QValRef& r) { return r.isError; }) ? "optimizer:InteriorPoint" : anyBound ? "optimizer:LBFGSB" : "optimizer:LBFGS");
 
+    if (lockedBeforeFree) ctx.label("locks:locked-before-free"); else if (ik.getNumFreeQs() < ik.getInternalState().getNQ()) ctx.label("locks:locked-after-free");
+    if (mk && os) ctx.label("goal:markers+sensors");
+    // T1 differential twin: the same problem solved with the other gradient route (analytic <-> forced numerical). From a feasible start
+    // inside the ranges both goals are <= the start goal (A7); the reductions they achieve must be comparable (calibrated in notes).
+    if (twin && (mk || os || !qvals.empty())) {
+        Assembler ik2(m.sys); Markers* mk2 = nullptr; OrientationSensors* os2 = nullptr; double g2 = NaN; bool ok2 = false;
+        try { configure(ik2, mk2, os2, !numGrad, false); ik2.initialize(s0); setObsOn(mk2, os2, markers, sensors); g2 = ik2.assemble(); ok2 = true; }
+        catch (const std::exception&) { ctx.label("twin:failed"); }
+        if (ok2) {
+            ctx.label("twin:numerical-gradient");
+            const double redA = g0lib - gret, redB = g0lib - g2, big = std::max(redA, redB), small = std::min(redA, redB);
+            const bool ipoptW = mp > 0 || std::any_of(qvals.begin(), qvals.end(), [](const QValRef& r) { return r.isError; });
+            if (dbg()) fprintf(stderr, "C43DBG twin ipopt=%d bound=%d g0=%g ga=%g gb=%g redA=%g redB=%g start=%g obs=%d feasible=%d inboxes=%d presc=%d acc=%g numGrad=%d lbf=%d sens=%d\n", (int)ipoptW, (int)anyBound, g0lib, gret, g2, redA, redB, startDist, obsClass, (int)startFeasible, (int)startInBoxes, (int)prescribedMoves, accUse, (int)numGrad, (int)lockedBeforeFree, (int)(os != nullptr));
+            if (startFeasible && startInBoxes && !prescribedMoves && !getenv("C43_NOTWIN")) twinJudge(redA, redB, g2, ipoptW);
+            if (ctx.failed) return;
+        }
+    }
     // A8 exact data, everything reachable, near start: residuals vanish to accuracy-scaled bounds
     const bool singular = eulerNearSingular(c, m, sref) || eulerNearSingular(c, m, s0);
     double wm = 0, wsn = 0; double gEnd = myGoal(s1, wm, wsn);
@@ -608,7 +666,7 @@ void property(const pbt::Tape& t, pbt::Ctx& ctx) {
 pbt::Config config() {
     pbt::Config c; c.prop = "C43"; c.K = KK; c.minUnits = 2;
     c.quick = {400, 1500, 12, 30}; c.thorough = {4000, 25000, 14, 120};
-    c.rule = "rapidcheck tape -> consgen model (mbgen tree of 1..4 bodies, all mobilizer types except LineOrientation/FreeLine, Euler or quaternion mode; 0..3 position constraints out of Rod, Ball, Weld, PointInPlane, PointOnLine, ConstantAngle, ConstantOrientation, ConstantCoordinate, linear CoordinateCoupler, parameters fitted so that the generated configuration is an assembled reference; full row rank of G on the movable mobilities required). Solver by tape: Assembler 60% (markers 0..3 per body with weights incl. 0 and missing observations, orientation sensors, QValue goals/errors, all generated from the reference exactly or with noise; lockMobilizer / lockQ / MobilizedBody::lock / Motion::Sinusoid prescribed q; restrictQ boxes containing or excluding the reference; accuracy 1e-3..1e-7, optional explicit tolerance, RMS/max norm, numerical gradient/Jacobian, permuted observation order, assemble() or assemble(State&); start at / near (0.02-0.03) / far (0.1-0.5) from the reference; 0..2 track() frames with moved observations and time), ObservedPointFitter 20% (1..3 stations per body, weights, 4 overloads, tolerance 1e-2..1e-6), LocalEnergyMinimizer 20% (gravity, a TwoPointLinearSpring per body, MobilityLinearSprings, tolerance 1e-2..1e-6). Non-trivial: Assembler: >=1 constraint, lock or bound and start >= 0.02 from the reference; fitter: >= 2 bodies and start >= 0.02 away; minimizer: >= 2 bodies and energy decreased; distinct by tape hash.";
+    c.rule = "rapidcheck tape -> consgen model (mbgen tree of 1..4 bodies, all mobilizer types except LineOrientation/FreeLine, Euler or quaternion mode; 0..3 position constraints out of Rod, Ball, Weld, PointInPlane, PointOnLine, ConstantAngle, ConstantOrientation, ConstantCoordinate, linear CoordinateCoupler, parameters fitted so that the generated configuration is an assembled reference; full row rank of G on the movable mobilities required). Solver by tape: Assembler 60% (markers 0..3 per body with weights incl. 0 and missing observations, orientation sensors, QValue goals/errors, all generated from the reference exactly or with noise; lockMobilizer / lockQ / MobilizedBody::lock / Motion::Sinusoid prescribed q; restrictQ boxes containing or excluding the reference; accuracy 1e-3..1e-7, optional explicit tolerance, RMS/max norm, numerical gradient/Jacobian, permuted observation order, assemble() or assemble(State&), in 2/3 of the cases a differential twin run with the other goal-gradient route (analytic <-> forced numerical); start at / near (0.02-0.03) / far (0.1-0.5) from the reference; 0..2 track() frames with moved observations and time), ObservedPointFitter 20% (1..3 stations per body, weights, 4 overloads, tolerance 1e-2..1e-6), LocalEnergyMinimizer 20% (gravity, a TwoPointLinearSpring per body, MobilityLinearSprings, tolerance 1e-2..1e-6). Non-trivial: Assembler: >=1 constraint, lock or bound and start >= 0.02 from the reference; fitter: >= 2 bodies and start >= 0.02 away; minimizer: >= 2 bodies and energy decreased; distinct by tape hash.";
     c.assumptions = {"a thrown AssembleFailed/TrackFailed/optimizer exception is a legitimate outcome (rejected; rates reported per class)",
         "the goal formulas are the documented ones: Markers 1/2 sum w r^2 / sum w, OrientationSensors 1/2 sum w a^2 / sum w, QValue (q-v)^2/2, total = sum weight_i goal_i",
         "tolerance in use = explicit tolerance, else accuracy/10 (Assembler.h); fitter/minimizer leave the Optimizer's default constraint tolerance 1e-4",
@@ -617,7 +675,9 @@ pbt::Config config() {
         "LineOrientation/FreeLine are outside the domain (coordinate freedom without a mobility is invisible to the u-space gradients of all three solvers)"};
     c.requiredLabels = {"solver:Assembler", "solver:ObservedPointFitter", "solver:LocalEnergyMinimizer", "optimizer:InteriorPoint", "optimizer:LBFGSB", "optimizer:LBFGS",
         "clause:zero-goal", "clause:zero-goal:binding", "clause:monotone:assemble", "clause:monotone:track", "clause:zero-goal:track", "track:frames", "has:lock", "lock:mobilizer", "lock:single-q", "lock:MobilizedBody::lock",
-        "has:bounds-containing-ref", "has:bounds-excluding-ref", "has:prescribed-motion", "has:constraints", "error:qvalue", "goal:orientation-sensors", "clause:gradient", "clause:energy-monotone"};
+        "has:bounds-containing-ref", "has:bounds-excluding-ref", "has:prescribed-motion", "has:constraints", "error:qvalue", "goal:orientation-sensors", "clause:gradient", "clause:energy-monotone",
+        "goal:markers+sensors", "locks:locked-before-free", "locks:locked-after-free", "twin:numerical-gradient", "clause:twin:descent", "clause:twin:InteriorPoint",
+        "clause:gradient:markers", "clause:gradient:orientation-sensors", "clause:gradient:markers:locked-before-free", "clause:gradient:orientation-sensors:locked-before-free"};
     c.caseTimeoutSecs = 300;
     c.directed.push_back({"assemble-returns-start-outside-bounds", "assemble-returns-start-outside-bounds", [](pbt::Ctx& ctx) {
         // one pin, markers observed at q = 0, start q = -0.02, q restricted to [0.13, 0.23]
